@@ -1,6 +1,7 @@
 package backupfs
 
 import (
+	"errors"
 	"fmt"
 	"io/fs"
 	"os"
@@ -176,7 +177,7 @@ func (s *HiddenFS) RemoveAll(name string) error {
 	}
 
 	fi, err := s.Lstat(name)
-	if isNotFoundError(err) {
+	if errors.Is(err, fs.ErrNotExist) {
 		// nothing to remove, same as os.RemoveAll
 		return nil
 	} else if err != nil {
